@@ -12,7 +12,7 @@ use refchess::Pos;
 use serde_json::{json, Value};
 use std::cell::RefCell;
 
-pub const RULE: &str = "histories of 1..3 position commands sent to one engine through the real handle_command (hook verif_handle_command), with ucinewgame / isready lines between them in 30% of the steps, and 30% of the later commands being the previous command word for word or continued by 1..3 further moves (as a GUI restates a game); each is 'startpos' or a six-field FEN written by the reference from a valid generated position with counters a real game can reach (fullmove 1..6000 weighted to 1, two-digit, 200..300 and four-digit values; halfmove clock 0..150 but never more than the plies played so far, 0 after a double push, and exactly on that bound in a quarter of the cases), followed by 'moves' and a reference-legal playout of 0..250 plies in UCI notation (castling as king move, promotions with piece letter); whitespace varied as the protocol allows. Oracle: engine board (hook verif_board) after EVERY command == reference position after the playout (placement, side, rights, ep convention, bitboard consistency); no panic. Non-trivial = a FEN that is not the start position and/or a move list containing a castle, ep capture or promotion; distinct by command text.";
+pub const RULE: &str = "histories of 1..4 position commands sent to one engine (fresh per case) through the real handle_command (hook verif_handle_command), with ucinewgame / isready lines between them in 30% of the steps, and 30% of the later commands being the previous command word for word or continued by 1..3 further moves (as a GUI restates a game); each is 'startpos' or a six-field FEN written by the reference from a valid generated position with counters a real game can reach (fullmove 1..6000 weighted to 1, two-digit, 200..300 and four-digit values; halfmove clock 0..150 but never more than the plies played so far, 0 after a double push, and exactly on that bound in a quarter of the cases), followed by 'moves' and a reference-legal playout of 0..250 plies in UCI notation (castling as king move, promotions with piece letter); whitespace varied as the protocol allows. Oracle: engine board (hook verif_board) after EVERY command == reference position after the playout (placement, side, rights, ep convention, bitboard consistency); no panic. Non-trivial = a FEN that is not the start position and/or a move list containing a castle, ep capture or promotion; distinct by command text.";
 
 thread_local! {
     static ENGINE: RefCell<Option<Flounder>> = RefCell::new(None);
@@ -118,9 +118,11 @@ fn extend_cmd(s: &mut Src, prev: &PosCmd) -> PosCmd {
 
 fn check(bytes: &[u8], stats: &mut Stats) -> Verdict {
     let mut s = Src::new(bytes);
-    let ncmds = 1 + s.below(3);
+    let ncmds = 1 + s.below(4);
     let mut sent: Vec<String> = Vec::new();
     let mut prev: Option<PosCmd> = None;
+    // a fresh engine per case: a failure must reproduce from the saved case alone
+    ENGINE.with(|e| *e.borrow_mut() = None);
     for _ in 0..ncmds {
         // other commands between two position commands must not matter
         let between = match s.below(10) {
